@@ -57,6 +57,27 @@ def _task(task):
                 except Exception:
                     rep['standin'] = None
                     rep.setdefault('notes', []).append('stand-in crashed: ' + traceback.format_exc(limit=3))
+            # the contract's own witness family (concrete inputs that do not depend on a counter-model) is run on the real function on EVERY run:
+            # a proof rests on assumed callee contracts, and a witness that fails the concrete contract shows such an assumption (or the code) wrong
+            if c.get('witness_always') and c.get('concrete_inputs'):
+                try:
+                    import importlib
+                    from pyvc.replay import run_contract, _safe_repr
+                    from pyvc.concrete import view
+                    mod, fn_ = c['concrete_inputs'].split(':')
+                    cands = getattr(importlib.import_module(mod), fn_)({})
+                    st = rep.get('standin') or dict(evaluations=0, distinct=0, failures=[], bound='', samples=[])
+                    st.setdefault('failures', [])
+                    for cand in cands:
+                        r = run_contract(c, cand)
+                        st['evaluations'] = st.get('evaluations', 0) + 1
+                        st['distinct'] = st.get('distinct', 0) + 1
+                        if r.get('outcome') == 'fail':
+                            st['failures'].append(dict(inputs={k: _safe_repr(view(v, ())) for k, v in cand.items()}, failed=r.get('failed'), raised=r.get('raised')))
+                    st['bound'] = ((st.get('bound') or '') + f' witness family of the contract: {len(cands)} inputs').strip()
+                    rep['standin'] = st
+                except Exception:
+                    rep.setdefault('notes', []).append('witness family crashed: ' + traceback.format_exc(limit=3))
             return rep
         if kind in ('G', 'B'):
             from vcheck import plan
